@@ -199,6 +199,9 @@ def run_mutants(prop, limit=None):
             subprocess.run(['rsync', '-a', '--exclude', 'target', '--exclude', '.git', extract.REPO + '/', repo + '/'])
             subprocess.run(['git', 'init', '-q'], cwd=repo)
             ok_apply = True
+            if c.get('patch'):
+                if subprocess.run(['git', 'apply', c['patch']], cwd=repo, stdout=subprocess.PIPE, stderr=subprocess.STDOUT).returncode != 0:
+                    ok_apply = False
             for (f, old, new) in c['edits']:
                 pth = os.path.join(repo, f)
                 s = open(pth).read()
